@@ -108,4 +108,24 @@ Section NP.
     unfold x_pke_seal. specialize (Hd bs Hok). destruct (x_of_edpk O bs); [|congruence].
     cbn [andb]. destruct (x_seal_keys O _ _ _ _) as [[ek nn] ak]. reflexivity.
   Qed.
+  (* ---- the backends that split their input with PANICKING slice operations after a length guard (Rs.v):
+          the guard is sufficient.  (Not true by construction: the mirrors contain the Panic branches, and
+          NonVacuity/C04.v shows the same bodies under a weaker guard do panic.) ---- *)
+  Theorem lc_local_unseal_no_panic key enc p f a : is_panic (lc_local_unseal O key enc p f a) = false.
+  Proof. rewrite lc_unseal_inst. apply lg_unseal_no_panic. Qed.
+  Theorem v4_public_unseal_no_panic pk enc p f a : is_panic (v4_public_unseal O pk enc p f a) = false.
+  Proof.
+    rewrite v4_punseal_inst. apply pg_unseal_no_panic. intros k x s. cbn [v4_pparams pp_check]. unfold chk.
+    destruct (ed_verify O k x s); reflexivity.
+  Qed.
+  Theorem v2_public_unseal_no_panic pk enc p f a : is_panic (v2_public_unseal O pk enc p f a) = false.
+  Proof.
+    rewrite v2_punseal_inst. apply pg_unseal_no_panic. intros k x s. cbn [v2_pparams pp_check]. unfold chk.
+    destruct (ed_verify O k x s); reflexivity.
+  Qed.
+  Theorem lc_public_unseal_no_panic pk enc p f a : is_panic (lc_public_unseal O pk enc p f a) = false.
+  Proof.
+    rewrite lc_punseal_inst. apply pg_unseal_no_panic. intros k x s. cbn [lc_pparams pp_check]. unfold chk.
+    match goal with |- context [if ?b then _ else _] => destruct b end; reflexivity.
+  Qed.
 End NP.
